@@ -194,4 +194,7 @@ func checkC16(c *Ctx, r *Result, tier string) {
 
 	// ---- R16e: results are JSON-encodable ---------------------------------------------------------
 	c16JSONSafe(c, r, reach)
+
+	// ---- R16f: no live references in results -------------------------------------------------------
+	c16NoLiveReferences(c, r, dbgIface)
 }
